@@ -48,12 +48,17 @@ class Loader(object):
         self.io_events = []
         self.leaks = 0
 
-    def load(self, name, cls='FCSFile', rewrite=True):
+    def load(self, name, cls='FCSFile', rewrite=True, fileobj=False):
         # rewrite=False boots the code again on the very same materialised file (same inode, same mtime)
         path = self.disk.materialise(name) if rewrite else self.disk.path(name)
         ev = []
         seam = seams.OpenSeam(ev, root=self.disk.root)
         out = {'io': ev}
+        fobj = None
+        if fileobj:
+            # documented alternative: the caller hands in an open binary file instead of a path
+            fobj = open(path, 'rb')
+            path = seams.RecFile(fobj, name, ev)
         with seams.patched(self.F.io, 'open', seam):
             with warnings.catch_warnings(record=True) as w:
                 warnings.simplefilter('always')
@@ -70,6 +75,9 @@ class Loader(object):
                     out.update(kind='exc', exc=type(e).__name__, msg=str(e)[:200])
             out['warnings'] = [str(x.message) for x in w]
         out['leaked'] = seam.close_leaked()
+        if fobj is not None:
+            out['caller_file_closed_by_reader'] = fobj.closed
+            fobj.close()
         return out
 
 
@@ -136,7 +144,7 @@ class C01Machine(Machine):
                 if spec['byteord'] == '':
                     spec['byteord'] = '1,2,3'
             return {'arm': 'unsupported', 'kind': kind, 'spec': spec}
-        return {'arm': 'intact', 'spec': fcsgen.gen_spec(rng), 'reload': rng.chance(0.3)}
+        return {'arm': 'intact', 'spec': fcsgen.gen_spec(rng), 'reload': rng.chance(0.3), 'fileobj': rng.chance(0.15)}
 
     def summarise(self, case):
         s = dict(case['spec'])
@@ -173,7 +181,9 @@ class C01Machine(Machine):
                 except fcs_ref.RefDontCare:
                     out['probes']['ref_dontcare'] = 1
                 for cls in ('FCSFile', 'FCSData'):
-                    o = ld.load('f.fcs', cls)
+                    o = ld.load('f.fcs', cls, fileobj=bool(case.get('fileobj')))
+                    if case.get('fileobj'):
+                        out['probes']['loaded_from_open_file_object'] = 1
                     out['evals'] += 1
                     log.add('load', cls, o['kind'], o.get('exc'),
                             arr_fp(o['data']) if o['kind'] == 'ok' else None, len(o['io']), o['leaked'])
